@@ -9,6 +9,7 @@ Replay: for every case a real one-node workflow (source text generated per type
 signature) is run with the debug worker; the outputs and the workflow's cache directory
 are observed and compared with the values TLC computed.
 """
+from concurrent.futures import ThreadPoolExecutor
 from pathlib import Path
 
 from harness import core, staging_common as sc
@@ -161,8 +162,10 @@ def run(ctx):
                 "<= 1) with exactly n leaves over {4 files, 2 directories, one int}; distinct = initial states of "
                 "Staging_Gen; an evaluation = one real one-node workflow run; non-trivial = at least two distinct "
                 "file objects with the same base name, or the same object twice")
-    info, c1 = sc.generate(ctx, POOL, 1, True, False)
-    _, c2 = sc.generate(ctx, POOL, 2, True, False, nshards=4)
+    with ThreadPoolExecutor(max_workers=2) as ex:
+        f1 = ex.submit(sc.generate, ctx, POOL, 1, True, False)
+        f2 = ex.submit(sc.generate, ctx, POOL, 2, True, False, 4)
+        (info, c1), (_, c2) = f1.result(), f2.result()
     spaces = {"n=1": c1, "n=2": c2}
     if ctx.thorough:
         sh = ctx.rng.sample(range(40), 3)
@@ -177,6 +180,7 @@ def run(ctx):
     ctx.extra["spaces"] = {k: len(v) for k, v in spaces.items()}
     prepare(ctx, todo)
     sc.BASE = str(ctx.scratch)
+    sc.private_hash_cache(ctx)
     selftest(next(c for c in c2 if c["clash"] and len(c["fields"]) == 1), info)
     res = core.pmap(check, [(c, info, k) for k, c in enumerate(todo)], chunksize=4)
     for k, (case, (v, d, obs, extra)) in enumerate(zip(todo, res)):
@@ -213,6 +217,7 @@ def replay(ctx, rec):
     case, info = rec["case"]["tlc"], rec["case"]["pool"]
     prepare(ctx, [case], name="c33_replay_defs")
     sc.BASE = str(ctx.scratch)
+    sc.private_hash_cache(ctx)
     v, d, obs, _ = check((case, info, rec["case"].get("variant", 0)))
     ctx.ran()
     print("replay verdict:", v, d)
